@@ -193,3 +193,83 @@ func VP_C07_reject() {
 	}
 	vp.Cover("compressed")
 }
+
+// frames at the top of the size range (Packet Length needs 4 VarInt bytes from
+// 2^21 on; the payload limit is MaxDataLength): concrete pseudo-random payloads
+// of 300 KiB and just below 2 MiB with arbitrary first/last byte and id, each
+// threshold class, whole-slice comparisons.
+func VP_C07_huge() {
+	sizes := []int{300 << 10, MaxDataLength - 100, MaxDataLength - 6}
+	n := sizes[vp.Choice(len(sizes))]
+	vp.SizeBound(5 * n)
+	vp.Unwind(n + 64)
+	bufPool = sync.Pool{New: func() any { return new(bytes.Buffer) }}
+	id := vpSmallPacketID()
+	data := vp.Noise(n)
+	data[0], data[n-1] = vp.Byte(), vp.Byte()
+	t := []int{-1, 0, 256}[vp.Choice(3)]
+	p := Packet{ID: id, Data: data}
+	var w bytes.Buffer
+	vp.Assert(p.Pack(&w, t) == nil, "Pack err==nil")
+	frame := append([]byte{}, w.Bytes()...)
+	// independent frame reader (bulk comparisons)
+	total, n0, ok := vpRefVarInt(frame)
+	vp.Assert(ok, "frame starts with a VarInt length")
+	vp.Assert(int(total) == len(frame)-n0, "declared length == remaining bytes")
+	plain := append(vpVarIntRef(id), data...)
+	if t < 0 {
+		vp.Assert(string(frame[n0:]) == string(plain), "uncompressed frame is id ++ payload")
+	} else {
+		dl, n1, ok := vpRefVarInt(frame[n0:])
+		vp.Assert(ok && int(dl) == len(plain), "data length == uncompressed size")
+		infl, ok := vp.Inflate(frame[n0+n1:])
+		vp.Assert(ok, "zlib stream is valid and has no trailing bytes")
+		vp.Assert(string(infl) == string(plain), "zlib stream inflates to id ++ payload")
+	}
+	r := bytes.NewReader(append(append([]byte{}, frame...), 0x5a))
+	var q Packet
+	vp.Assert(q.UnPack(r, t) == nil, "UnPack err==nil")
+	vp.Assert(q.ID == id, "id round trip")
+	vp.Assert(string(q.Data) == string(data), "payload round trip")
+	vp.Assert(r.Len() == 1, "exactly one frame consumed")
+	vp.Cover("end")
+}
+
+func vpSmallPacketID() int32 {
+	id := vp.Int32() // one- and two-byte ids (the full range is VP_C07_roundtrip's)
+	vp.Assume(id >= 0 && id < 16384)
+	return id
+}
+
+// packets are values: a packet received earlier, held in its own Packet, is not
+// changed by later Pack/UnPack calls that reuse the pooled buffers (no aliasing
+// of pool memory), in every threshold class and with the sender's payload
+// modified after packing.
+func VP_C07_held_packets() {
+	vp.SizeBound(64)
+	vp.PoolMode(1) // pooled buffers are always handed out again (dirty)
+	t := vpThreshold()
+	a := Packet{ID: vpSmallPacketID(), Data: vp.Bytes(1 + vp.Choice(3))}
+	b := Packet{ID: vpSmallPacketID(), Data: vp.Bytes(1 + vp.Choice(3))}
+	var w bytes.Buffer
+	vp.Assert(a.Pack(&w, t) == nil, "Pack a")
+	keepA := append([]byte{}, a.Data...)
+	a.Data[0] ^= 0xff // the sender reuses its payload slice
+	vp.Assert(b.Pack(&w, t) == nil, "Pack b")
+	r := bytes.NewReader(w.Bytes())
+	var q1, q2 Packet
+	vp.Assert(q1.UnPack(r, t) == nil, "UnPack a")
+	vp.Assert(q2.UnPack(r, t) == nil, "UnPack b")
+	// a third packet goes through the pool after both were received
+	c := Packet{ID: vpSmallPacketID(), Data: vp.Bytes(4)}
+	var w2 bytes.Buffer
+	vp.Assert(c.Pack(&w2, t) == nil, "Pack c")
+	var q3 Packet
+	vp.Assert(q3.UnPack(bytes.NewReader(w2.Bytes()), t) == nil, "UnPack c")
+	vp.Assert(q1.ID == a.ID, "first packet still intact after later calls")
+	vpEqBytes(q1.Data, keepA, "first packet still intact after later calls")
+	vp.Assert(q2.ID == b.ID, "second packet still intact after later calls")
+	vpEqBytes(q2.Data, b.Data, "second packet still intact after later calls")
+	vpEqBytes(q3.Data, c.Data, "third payload")
+	vp.Cover("end")
+}
